@@ -354,6 +354,119 @@ INPROC_FLAGSETS = {"compress-rich-simple": ("go", True), "uncompressed-rich": ("
                    "proto-flat": ("proto", False)}
 
 
+
+HGEN_VARIANTS = {"go": ["a", "b", "c"], "path": ["a", "b", "c", "d"], "proto": ["a", "b", "c"]}
+
+
+def hgen_run(info, combo, seq, modes, outdir, workdir):
+    """One process generating len(seq) times. Returns the list of per-generation records (ok, sha, ...), or None."""
+    tool2, compress = INPROC_FLAGSETS[combo[2]]
+    files, paths = combo_files(info, combo[0], workdir)
+    if os.path.exists(outdir):
+        shutil.rmtree(outdir)
+    env = dict(os.environ)
+    for k in ("VERIF_MAP", "VERIF_SITES", "VERIF_STATS"):
+        env.pop(k, None)
+    env["TMPDIR"] = workdir
+    p = subprocess.run([info["hgen"], "-tool", tool2, "-compress=%s" % ("true" if compress else "false"), "-path", ",".join(paths),
+                        "-seq", ",".join(seq), "-modes", ",".join(modes), "-out", outdir] + files,
+                       cwd=workdir, env=env, stdout=subprocess.PIPE, stderr=subprocess.PIPE, text=True, timeout=1800)
+    try:
+        return json.loads(p.stdout.strip().splitlines()[-1])["gens"]
+    except (ValueError, IndexError, KeyError):
+        return None
+
+
+def hgen_refs(info, combo, workdir, variants):
+    """Every variant generated alone in a fresh process, canonical order: {variant: (sha, file)} for those that generate."""
+    refs = {}
+    for v in variants:
+        od = os.path.join(workdir, "hg-ref-" + v)
+        g = hgen_run(info, combo, [v], ["canon"], od, workdir)
+        if g and g[0].get("ok"):
+            refs[v] = (g[0]["sha"], os.path.join(od, "0.txt"))
+    return refs
+
+
+def hgen_check_seq(info, combo, seq, modes, refs, workdir):
+    """Runs the sequence in one process; returns None or (index, detail) of the first generation that differs from its fresh-process reference."""
+    od = os.path.join(workdir, "hg-seq")
+    g = hgen_run(info, combo, seq, modes, od, workdir)
+    if g is None:
+        return (-1, "hgen produced no result")
+    for i, rec in enumerate(g):
+        v = seq[i]
+        if not rec.get("ok"):
+            return (i, "generation %d (variant %s, %s) fails although the same configuration generates in a fresh process: %s" % (i, v, modes[i], rec.get("err")))
+        if rec["sha"] != refs[v][0]:
+            a = open(refs[v][1], "rb").read()
+            b = open(os.path.join(od, "%d.txt" % i), "rb").read()
+            n = min(len(a), len(b))
+            k = next((j for j in range(n) if a[j] != b[j]), n)
+            lo = max(0, k - 80)
+            return (i, "generation %d of the process (variant %s, map order %s) differs from what the same configuration gives as the only generation of a fresh process; "
+                       "first difference at byte %d:\n    fresh process: …%r\n    this process:  …%r" % (i, v, modes[i], k, a[lo:k + 120].decode("utf8", "replace"), b[lo:k + 120].decode("utf8", "replace")))
+    return None
+
+
+def inproc_sig(tool2, seq, modes, idx):
+    if any(v != seq[idx] for v in seq[:idx]):
+        kind = "after-other-configuration"
+    elif idx > 0 and modes[idx] == "canon":
+        kind = "second-run"
+    else:
+        kind = "random-order"
+    return "C25:%s:same-process:%s" % (tool2, kind)
+
+
+def inproc_leg(info, combo, tier, r, workdir, res):
+    tool2, _ = INPROC_FLAGSETS[combo[2]]
+    refs = hgen_refs(info, combo, workdir, HGEN_VARIANTS[tool2])
+    res["runs"] += len(HGEN_VARIANTS[tool2])
+    if "a" not in refs:
+        return
+    usable = sorted(refs)
+    seqs = [(["a", "a", "a"], ["canon", "canon", "rand:%d" % r.randrange(1, 1 << 40)])]
+    for _ in range(2 if tier == "quick" else 8):
+        n = r.randint(2, 4)
+        seq = [r.choice(usable) for _ in range(n)]
+        if len(usable) > 1 and len(set(seq)) == 1:
+            seq[0] = r.choice([v for v in usable if v != seq[-1]])
+        modes = [r.choice(["canon", "canon", "rev", "rand:%d" % r.randrange(1, 1 << 40)]) for _ in range(n)]
+        seqs.append((seq, modes))
+    for seq, modes in seqs:
+        bad = hgen_check_seq(info, combo, seq, modes, refs, workdir)
+        res["runs"] += len(seq)
+        res["fired"]["same-process-regeneration"] = res["fired"].get("same-process-regeneration", 0) + len(seq) - 1
+        res["fired"]["same-process-after-other-configuration"] = res["fired"].get("same-process-after-other-configuration", 0) + sum(
+            1 for i in range(1, len(seq)) if any(v != seq[i] for v in seq[:i]))
+        if bad is None:
+            continue
+        idx, detail = bad
+        if idx < 0:
+            res["skipped_inproc"] = detail
+            return
+        sig = inproc_sig(tool2, seq, modes, idx)
+        # minimise: drop earlier generations while the same class of violation persists at the last one
+        seq, modes = seq[:idx + 1], modes[:idx + 1]
+        i = 0
+        while i < len(seq) - 1:
+            cs, cm = seq[:i] + seq[i + 1:], modes[:i] + modes[i + 1:]
+            b2 = hgen_check_seq(info, combo, cs, cm, refs, workdir)
+            res["runs"] += len(cs)
+            if b2 is not None and b2[0] == len(cs) - 1 and inproc_sig(tool2, cs, cm, b2[0]) == sig:
+                seq, modes, detail = cs, cm, b2[1]
+            else:
+                i += 1
+        if modes[-1] != "canon":
+            b2 = hgen_check_seq(info, combo, seq, modes[:-1] + ["canon"], refs, workdir)
+            if b2 is not None and b2[0] == len(seq) - 1 and inproc_sig(tool2, seq, modes[:-1] + ["canon"], b2[0]) == sig:
+                modes, detail = modes[:-1] + ["canon"], b2[1]
+        res["violations"].append({"combo": list(combo), "map": "inproc", "sites": None, "rc": 0, "file": "(in-process, %s)" % tool2, "inproc": True,
+                                  "seq": seq, "modes": modes, "inproc_sig": sig, "detail": "sequence %s with map orders %s: %s" % (",".join(seq), ",".join(modes), detail)})
+        return
+
+
 def run_combo(args):
     info, combo, tier, seed, workroot = args
     schema, tool, flagset = combo
@@ -402,26 +515,7 @@ def run_combo(args):
             res["violations"].append(v)
             break
         if not res["violations"] and flagset in INPROC_FLAGSETS:
-            tool2, compress = INPROC_FLAGSETS[flagset]
-            files, paths = combo_files(info, schema, workdir)
-            env = dict(os.environ)
-            env.pop("VERIF_MAP", None)
-            env.pop("VERIF_SITES", None)
-            p = subprocess.run([info["hgen"], "-tool", tool2, "-compress=%s" % ("true" if compress else "false"), "-path", ",".join(paths),
-                                "-seed", str(r.randrange(1, 1 << 40))] + files, cwd=workdir, env=env, stdout=subprocess.PIPE, stderr=subprocess.PIPE, text=True, timeout=900)
-            res["runs"] += 3
-            try:
-                d = json.loads(p.stdout.strip().splitlines()[-1])
-            except (ValueError, IndexError):
-                d = {"skipped": "hgen produced no result: " + (p.stderr or "")[-300:]}
-            if "skipped" not in d:
-                res["fired"]["same-process-regeneration"] = res["fired"].get("same-process-regeneration", 0) + 2
-                if not d.get("second_run_same"):
-                    res["violations"].append({"combo": list(combo), "map": "canon", "sites": None, "rc": 0, "file": "(in-process, %s)" % tool2, "inproc": True,
-                                              "detail": "generating twice in one process with the same map order gives different output: " + str(d.get("second_run_diff") or d.get("second_run_error"))})
-                elif not d.get("random_order_run_same"):
-                    res["violations"].append({"combo": list(combo), "map": "rand-inproc", "sites": None, "rc": 0, "file": "(in-process, %s)" % tool2, "inproc": True,
-                                              "detail": "a third in-process generation under a seeded random map order differs: " + str(d.get("random_run_diff") or d.get("random_run_error"))})
+            inproc_leg(info, combo, tier, r, workdir, res)
         res["wall_s"] = round(time.time() - t0, 2)
         return res
     finally:
@@ -477,14 +571,15 @@ def check(pid, tier, seed):
         key_sites = v.get("minimal_sites") or v.get("sites") or []
         sig = "C25:" + v["combo"][1] + ":" + ("+".join(key_sites) if key_sites else ("native-order" if v["map"] == "pass" else "unminimised"))
         if v.get("inproc"):
-            sig = "C25:" + v["combo"][1] + ":same-process:" + ("second-run" if v["map"] == "canon" else "random-order")
+            sig = v["inproc_sig"]
         v["signature"] = sig
         if sig not in by_sig:
             by_sig[sig] = v
     for sig, v in sorted(by_sig.items()):
         safe = "".join(ch if ch.isalnum() else "_" for ch in sig)[:70]
         path = os.path.join(REPLAYS, "C25-%s.json" % safe)
-        case = {"property": "C25", "combo": v["combo"], "map": v["map"], "sites": v.get("minimal_sites") or v.get("sites"), "inproc": bool(v.get("inproc"))}
+        case = {"property": "C25", "combo": v["combo"], "map": v["map"], "sites": v.get("minimal_sites") or v.get("sites"), "inproc": bool(v.get("inproc")),
+                "seq": v.get("seq"), "modes": v.get("modes")}
         json.dump({"property": "C25", "seed": seed, "violation": {"property": "C25", "oracle": "output-differs", "signature": sig,
                                                                    "msg": "output file %s differs from the canonical-order reference: %s" % (v["file"], v["detail"])},
                    "case": case, "repo_hash": info["repo_hash"], "how_to_replay": "./verifctl replay %s" % os.path.relpath(path, VERIF)}, open(path, "w"), indent=1)
@@ -533,15 +628,17 @@ def replay(path, doc):
     workdir = tempfile.mkdtemp(prefix="verif-c25r-", dir=build.SCRATCH)
     try:
         if case.get("inproc"):
-            tool2, compress = INPROC_FLAGSETS[combo[2]]
-            files, paths = combo_files(info, combo[0], workdir)
-            p = subprocess.run([info["hgen"], "-tool", tool2, "-compress=%s" % ("true" if compress else "false"), "-path", ",".join(paths), "-seed", "12345"] + files,
-                               cwd=workdir, stdout=subprocess.PIPE, stderr=subprocess.PIPE, text=True, timeout=900)
-            print(p.stdout[-3000:])
-            d = json.loads(p.stdout.strip().splitlines()[-1])
-            if d.get("second_run_same") and d.get("random_order_run_same"):
-                print("replay: three generations in one process agree (no violation)")
+            seq, modes = case["seq"], case["modes"]
+            refs = hgen_refs(info, combo, workdir, sorted(set(seq)))
+            missing = [v for v in set(seq) if v not in refs]
+            if missing:
+                log("replay: variant(s) %s do not generate in a fresh process" % missing)
+                return 2
+            bad = hgen_check_seq(info, combo, seq, modes, refs, workdir)
+            if bad is None:
+                print("replay: every generation of the sequence %s equals its fresh-process reference (no violation)" % ",".join(seq))
                 return 0
+            print("replay: " + bad[1])
             print("VIOLATION property=C25 replay=%s" % path)
             return 1
         refdir = os.path.join(workdir, "ref")
